@@ -140,6 +140,14 @@ Theorem C19_coils_refuted :
 Proof. exact via_coils_refuted. Qed.
 Print Assumptions C19_coils_refuted.
 
+(* with word order Big (the one the decoder silently gets) the coil transport is faithful,
+   for every byte order *)
+Theorem C19_coils_partial : forall bo vs,
+  wf_values vs = true ->
+  exists s, to_string code bo Big vs = Ok s /\ via_coils bo Big vs = Ok (vs, length s).
+Proof. exact via_coils_partial. Qed.
+Print Assumptions C19_coils_partial.
+
 (* non-vacuity: concrete values under all four orders, an odd-length sequence through
    registers, and a well-formed sequence of every type that satisfies the hypotheses *)
 Example C19_nonvacuous :
